@@ -262,8 +262,87 @@ def stream_raw(run, rng, n):
         run.oblige('corr:pango-G', False, str(exc))
 
 
+def trunc1024(mw):
+    return int(Fraction(mw) * 1024)          # int() truncates towards zero like the implementation
+
+
+def first_unit_em(text, hy):
+    """advance (em) of the first unbreakable unit of the first paragraph"""
+    p = text.split('\n')[0]
+    i = 0
+    while i < len(p) and p[i] == ' ':
+        i += 1
+    j = i
+    while j < len(p) and p[j] != ' ' and not (hy == 'manual' and j > i and p[j - 1] == SHY):
+        j += 1
+    return vis_len(p[:j])
+
+
+def classify_sfl(c, o, mask):
+    """signature of the known mechanism explaining a deviation of the implementation from the greedy spec
+    (None: unexplained)"""
+    text, ow, wb = c['text'], c['ow'], c['wb']
+    wrap = c['ws'] in ('normal', 'pre-wrap', 'pre-line')
+    can_break = wb == 'break-all' or (c['ils'] and (ow == 'anywhere' or (ow == 'break-word' and not c['mini'])))
+    if not wrap or c['mw'] is None:
+        return None
+    if can_break and trunc1024(c['mw']) < 0:
+        return 'sfl-negative-width-no-wrap-when-breaking-inside-words'
+    ltext = o[0]
+    has_shy = SHY in text and c['hy'] == 'manual'
+    if wb == 'break-all' and ow == 'normal' and not ltext.endswith(HY) and mask & 0b11110 == 2:
+        return 'sfl-break-all-reserves-hyphen-room'
+    if has_shy:
+        if mask & 0b11110 == 4 and not ltext.endswith(HY):
+            return 'sfl-soft-hyphen-break-without-hyphen'
+        if first_unit_em(text, c['hy']) * c['fs'] > max(Fraction(c['mw']), 0):
+            return 'sfl-overflowing-word-runs-to-first-soft-hyphen'
+        if ow != 'normal':
+            return 'sfl-soft-hyphen-under-overflow-wrap'
+    return None
+
+
 def stream_sfl(run, rng, n):
-    pass
+    cases = [gen_sfl_case(rng, 'plain' if i % 3 == 0 else 'all') for i in range(n)]
+    outs = common.run_impl('impl_c09', 'sfl', cases, chunksize=32)
+    coq = [coq_sfl_case(c, st, o) for c, (st, o) in zip(cases, outs)]
+    for c, (st, o) in zip(cases, outs):
+        if st == 'timeout':
+            run.fail('split_first_line timeout', {'stream': 'sfl-direct', 'case': c}, signature='timeout')
+        elif st == 'exc':
+            run.fail('split_first_line raised %s' % o['type'], {'stream': 'sfl-direct', 'case': c, 'exc': o},
+                     signature='sfl-crash:%s' % (o['site'],))
+    try:
+        masks = common.eval_cases('c09sfl', PRE, 'sfl_case', coq, 'sfl_judge')
+    except RuntimeError as exc:
+        run.oblige('corr:sfl-direct', False, str(exc))
+        return
+    mism = [(c, o) for c, (st, o), m in zip(cases, outs, masks) if m & 1]
+    run.oblige('corr:sfl-direct(split_first_line_model G vs split_first_line with the real Pango)', not mism,
+               'first disagreements: %s' % mism[:3])
+    known = {}
+    for c, (st, o), m in zip(cases, outs, masks):
+        if st != 'ok' or not (m & 0b11110):
+            continue
+        sig = classify_sfl(c, o, m)
+        if sig is None:
+            run.fail('first line differs from the greedy specification (mask %d)' % m,
+                     {'stream': 'sfl-direct', 'case': c, 'impl_output': o, 'mask': m})
+        else:
+            known[sig] = known.get(sig, 0) + 1
+            run.fail('first line differs from the greedy specification: %s' % sig,
+                     {'stream': 'sfl-direct', 'case': c, 'impl_output': o, 'mask': m}, signature=sig)
+    feats = set()
+    for c in cases:
+        feats.add((c['ws'], c['ow'], c['wb'], c['hy'], SHY in c['text'], c['mw'] is None, c['ils'], c['mini'],
+                   c['fs'], len(c['text']) // 20))
+    run.count('sfl-direct', len(cases), feats, samples=[{'case': cases[1], 'impl': outs[1][1]}])
+    run.stream_info('sfl-direct', known_mechanisms_hit=known,
+                    rule='1..60 words of 1..30 letters a-h, single spaces (newlines under pre*), soft hyphens in 30%% of '
+                         'the hyphens:manual cases, 10 font sizes 1..40px, widths on word-sum boundaries +-1/4px / 0 / '
+                         '4em (ratio switch) / negative, every white-space x overflow-wrap x word-break x hyphens, '
+                         'is_line_start, minimum; 1/3 plain (no overflow-wrap/break-all/soft hyphen/edge spaces); distinct '
+                         '= (style, soft hyphen?, width None?, flags, size, length/20)')
 
 
 def replay(data):
